@@ -540,7 +540,6 @@ theorem scanLeaves_cover {t : Tree} {fuel : Nat} {p : List UInt8} {L : Layer} (c
         have h2 := hr.lo f hf
         exact lt_le_trans (layerEnts_wf c.core (hsubm e he)).1 hkw h1 h2
       have hcont := hN2 hall
-      simp only at hcont
       subst hcont
       have hmne : more ≠ [] := by
         intro e; subst e
@@ -557,5 +556,211 @@ theorem scanLeaves_cover {t : Tree} {fuel : Nat} {p : List UInt8} {L : Layer} (c
         rw [← hlen] at hcov ⊢
         exact ih (pre ++ [leaf]) _ (by rw [hdec]; simp) (by rw [hlen]; omega)
           (by rw [hacc2t]; exact (hE.1 rfl).2) hcov
+
+/-! ### the start leaf is not to the right of the key's leaf -/
+
+theorem ofKey_mono {rest lk : Key} (h : lexLt rest lk = false) :
+    KT.ltSpec (KT.ofKey rest) (KT.ofKey lk) = false := by
+  cases hs : KT.ltSpec (KT.ofKey rest) (KT.ofKey lk) with
+  | false => rfl
+  | true =>
+    exfalso
+    obtain ⟨g1, g2⟩ := keys_lt_of_ltSpec_ofKey (KT.ofKey_wf rest) hs
+    by_cases hl : rest.length > 8
+    · have := g2 (ofKey_len_long hl) (rest.drop 8)
+      rw [ofKey_slice_long hl, List.take_append_drop, h] at this
+      cases this
+    · have := g1 (by rw [ofKey_len_short hl]; omega)
+      rw [bytes_ofKey_short hl, h] at this
+      cases this
+
+theorem start_le_route {t : Tree} {fuel : Nat} {p : List UInt8} {L : Layer} (c : LCtx t fuel p L)
+    {lk : Key} {le : EP} (hle : le = .inf → lk = []) {rest : Key} (hin : inLeft lk le rest = true)
+    {pre' post' : List Leaf} {leafj : Leaf} (hr : Routed L.leaves (KT.ofKey rest) pre' leafj post') :
+    route (descentKT lk false) L.leaves ≤ pre'.length := by
+  by_cases hinf : le = .inf
+  · rw [hle hinf, route_nil_key c.core.1]; exact Nat.zero_le _
+  · rcases Nat.lt_or_ge pre'.length (route (descentKT lk false) L.leaves) with hlt | hge
+    · exfalso
+      have hc := c.core
+      have hkw := KT.ofKey_wf rest
+      cases hlv : L.leaves with
+      | nil => rw [hlv] at hc; cases hc.1
+      | cons c0 ls =>
+        obtain ⟨pre, leaf, post, h1, h2, _, h4, _⟩ := routeFrom_decomp (descentKT lk false) ls c0
+        have hstart : route (descentKT lk false) L.leaves = pre.length := by rw [hlv]; exact h2.symm
+        rw [hstart] at hlt
+        have hpne : pre ≠ [] := by intro e; subst e; simp at hlt
+        rw [hlv, h1] at hc
+        obtain ⟨f, hf, hfw, _⟩ := hc.mid_fence hpne
+        have hrl : routeLeft (descentKT lk false) f = false := by
+          apply h4 leaf _ f hf
+          cases pre with
+          | nil => exact absurd rfl hpne
+          | cons x xs => simp
+        have hlo := descent_left hfw hrl
+        -- that leaf is to the right of the key's leaf
+        have hget : L.leaves[pre.length]? = some leaf := by rw [hlv, h1]; simp
+        rw [hr.eq, List.getElem?_append_right (by omega)] at hget
+        have hpost : leaf ∈ post' := by
+          cases hd : pre.length - pre'.length with
+          | zero => omega
+          | succ n =>
+            rw [hd, List.getElem?_cons_succ] at hget
+            exact List.mem_of_getElem? hget
+        have hkf := hr.hi leaf hpost f hf
+        have hmono : KT.ltSpec (KT.ofKey rest) (KT.ofKey lk) = false := by
+          apply ofKey_mono
+          cases le with
+          | inf => exact absurd rfl hinf
+          | incl => simpa [inLeft] using hin
+          | excl => exact lexLt_asymm _ _ hin
+        have := le_lt_trans (KT.ofKey_wf lk) hfw hmono hkf
+        rw [hlo] at this
+        cases this
+    · exact hge
+
+theorem scanLayer_cover {t : Tree} (hF : FCore (lay t)) {max : Nat} (v : Val) :
+    ∀ (fuel : Nat) (p : List UInt8) (lk : Key) (le : EP) (rk : Key) (re : EP) (acc : Acc),
+      (lay t p).isSome → t.length ≤ fuel + p.length / 8 → (le = .inf → lk = []) →
+      full max acc.tuples.length = false →
+      ∀ rest : Key, walkM (lookF (lay t)) p rest = none → inLeft lk le rest = true →
+        inRight rk re (p ++ rest) = true →
+        Cov max (scanLayer cfgFixed t fuel p lk le rk re max false acc).1.tuples (p ++ rest) →
+        Hit t p rest v (scanLayer cfgFixed t fuel p lk le rk re max false acc).1.nodes := by
+  intro fuel
+  induction fuel with
+  | zero =>
+    intro p lk le rk re acc hp hA hle hpre rest habs hin hir
+    exact layer_step hF v 0 (fun _ _ f h => absurd h (by omega)) p lk le rk re acc hp hA hle hpre rest habs hin hir
+  | succ n ih =>
+    intro p lk le rk re acc hp hA hle hpre rest habs hin hir
+    refine layer_step hF v (n + 1) ?_ p lk le rk re acc hp hA hle hpre rest habs hin hir
+    intro p' hA' f hf q alk ale ark are acc' hq hlen h0 hpre' rest' habs' hin' hir'
+    have : f = n := by omega
+    subst this
+    exact ih q alk ale ark are acc' hq (by omega) h0 hpre' rest' habs' hin' hir'
+where
+  layer_step {t : Tree} (hF : FCore (lay t)) {max : Nat} (v : Val) (fuel : Nat)
+      (IH : ∀ p, t.length ≤ fuel + p.length / 8 → SubN t fuel p max v)
+      (p : List UInt8) (lk : Key) (le : EP) (rk : Key) (re : EP) (acc : Acc)
+      (hp : (lay t p).isSome) (hA : t.length ≤ fuel + p.length / 8) (hle : le = .inf → lk = [])
+      (hpre : full max acc.tuples.length = false)
+      (rest : Key) (habs : walkM (lookF (lay t)) p rest = none) (hin : inLeft lk le rest = true)
+      (hir : inRight rk re (p ++ rest) = true) :
+      Cov max (scanLayer cfgFixed t fuel p lk le rk re max false acc).1.tuples (p ++ rest) →
+      Hit t p rest v (scanLayer cfgFixed t fuel p lk le rk re max false acc).1.nodes := by
+    cases hL : findLayer t p with
+    | none => rw [lay_isSome, hL] at hp; cases hp
+    | some L =>
+      have c : LCtx t fuel p L := ⟨hF, hL, hA⟩
+      obtain ⟨pre', leafj, post', hr⟩ := route_decomp c.core (KT.ofKey_wf rest)
+      have hs := start_le_route c hle hin hr
+      have hne : L.leaves ≠ [] := by
+        intro e
+        have := c.core.1
+        rw [e] at this; cases this
+      have hlt := route_lt hne (descentKT lk false)
+      have hlen : (L.leaves.take (route (descentKT lk false) L.leaves)).length =
+          route (descentKT lk false) L.leaves := by
+        rw [List.length_take]; omega
+      rw [scanLayer_some hL]
+      have := scanLeaves_cover c (IH p hA) lk le rk re rest hin hir habs hr
+        (L.leaves.drop (route (descentKT lk false) L.leaves))
+        (L.leaves.take (route (descentKT lk false) L.leaves)) acc
+        (List.take_append_drop _ _).symm (by rw [hlen]; exact hs) hpre
+      rw [hlen] at this
+      exact this
+
+/-! ### the public statement -/
+
+theorem Hit.final {t : Tree} {k : Key} {v : Val} {nodes : List NodeRef} (h : Hit t [] k v nodes) :
+    ∃ r ∈ nodes, (put t k v false).modified = some (r.pfx, r.idx) ∧
+      ∃ L l, findLayer t r.pfx = some L ∧ L.leaves[r.idx]? = some l ∧ r.vins = l.vins ∧ r.vsplit = l.vsplit := by
+  obtain ⟨q, Lq, i, hL, hi, hp, hm⟩ := h
+  have hLp : Lq.pfx = q := (findLayer_some hL).1
+  refine ⟨mkRef Lq i, hm, ?_, Lq, Lq.leaves[i], ?_, ?_, ?_, ?_⟩
+  · show (putAt t [] k v false).modified = some (Lq.pfx, i)
+    rw [hp, hLp]
+  · show findLayer t Lq.pfx = some Lq
+    rw [hLp]; exact hL
+  · show Lq.leaves[i]? = some Lq.leaves[i]
+    exact List.getElem?_eq_getElem hi
+  · show (Lq.leaves.getD i emptyLeaf).vins = _
+    rw [List.getD_eq_getElem?_getD, List.getElem?_eq_getElem hi]; rfl
+  · show (Lq.leaves.getD i emptyLeaf).vsplit = _
+    rw [List.getD_eq_getElem?_getD, List.getElem?_eq_getElem hi]; rfl
+
+theorem scan_nodes_cover (t : Tree) (lk : Key) (le : EP) (rk : Key) (re : EP) (max : Nat) (k : Key) (v : Val)
+    (h : Inv t) (ha : scanArgsOk lk le rk re max false = true) (hk : (get t k).val = none)
+    (hc : (inInterval lk le rk re k &&
+      (if max != 0 && (scan cfgFixed t lk le rk re max false).tuples.length ≥ max then
+         (match (scan cfgFixed t lk le rk re max false).tuples.getLast? with
+          | some (last, _) => !lexLt last k
+          | none => false)
+       else true)) = true) :
+    ∃ r ∈ (scan cfgFixed t lk le rk re max false).nodes, (put t k v false).modified = some (r.pfx, r.idx) ∧
+      ∃ L l, findLayer t r.pfx = some L ∧ L.leaves[r.idx]? = some l ∧ r.vins = l.vins ∧ r.vsplit = l.vsplit := by
+  obtain ⟨_, hF, hE⟩ := (inv_iff t).mp h
+  unfold get at hk
+  rw [getAt_val] at hk
+  rw [Bool.and_eq_true] at hc
+  obtain ⟨hint, hcv⟩ := hc
+  have hcov : Cov max (scan cfgFixed t lk le rk re max false).tuples ([] ++ k) := by
+    by_cases hf : full max (scan cfgFixed t lk le rk re max false).tuples.length = true
+    · right
+      have hf' : (max != 0 && decide ((scan cfgFixed t lk le rk re max false).tuples.length ≥ max)) = true := hf
+      rw [if_pos hf'] at hcv
+      cases hl : (scan cfgFixed t lk le rk re max false).tuples.getLast? with
+      | none => rw [hl] at hcv; cases hcv
+      | some last =>
+        rw [hl] at hcv
+        obtain ⟨lkey, lval⟩ := last
+        exact ⟨(lkey, lval), rfl, by simpa using hcv⟩
+    · left
+      simpa using hf
+  apply Hit.final
+  cases hL : findLayer t [] with
+  | none => have := hF.root; rw [lay_isSome, hL] at this; cases this
+  | some L =>
+    rw [scan_unfold hL lk le rk re max false ha] at hcov ⊢
+    generalize hlk0 : (if (le == EP.inf) = true then [] else lk) = lk0 at hcov ⊢
+    rw [inInterval_eq, Bool.and_eq_true] at hint
+    obtain ⟨hin, hir⟩ := hint
+    have hin' : inLeft lk0 le k = true := by rw [← hlk0, inLeft_inf_key]; exact hin
+    by_cases hd : ((L.leaves.getD (route (descentKT lk0 false) L.leaves) emptyLeaf).deleted &&
+        L.leaves.length == 1) = true
+    · -- deleted single root border: the only leaf is recorded, and every insert lands there
+      rw [if_pos hd]
+      simp only [Bool.and_eq_true, beq_iff_eq] at hd
+      obtain ⟨hd1, hd2⟩ := hd
+      cases hlv : L.leaves with
+      | nil => rw [hlv] at hd2; cases hd2
+      | cons l ls =>
+        rw [hlv] at hd2 hd1
+        have hls : ls = [] := List.eq_nil_of_length_eq_zero (by simpa using hd2)
+        subst hls
+        have hr0 : ∀ kt, route kt L.leaves = 0 := by intro kt; rw [hlv]; rfl
+        have hl0 : ([l] : List Leaf).getD (route (descentKT lk0 false) [l]) emptyLeaf = l := rfl
+        rw [hl0] at hd1
+        have hents : l.ents = [] := (hE [] _ (lay_of_findLayer hL) l (by rw [hlv]; simp)).2 hd1
+        have hlk : leafLookup (KT.ofKey k) (leafKeys (L.leaves.getD (route (KT.ofKey k) L.leaves) emptyLeaf)) = none := by
+          rw [hr0, hlv]
+          show leafLookup (KT.ofKey k) (leafKeys l) = none
+          rw [leafKeys, hents]; rfl
+        have hmod := putAt_miss hL v false hlk
+        rw [hr0] at hmod
+        refine ⟨L.pfx, L, 0, by rw [(findLayer_some hL).1]; exact hL, by rw [hlv]; simp, hmod, ?_⟩
+        show mkRef L 0 ∈ [mkRef L (route (descentKT lk0 false) [l])]
+        exact List.mem_singleton.mpr rfl
+    · rw [if_neg hd] at hcov ⊢
+      simp only at hcov ⊢
+      have hpre : full max (⟨[], []⟩ : Acc).tuples.length = false := by
+        apply full_false_iff.mpr
+        simp only [List.length_nil]
+        omega
+      have := scanLayer_cover hF v (t.length + 1) [] lk0 le rk re ⟨[], []⟩ hF.root (by simp)
+        (by intro e; rw [← hlk0, e]; rfl) hpre k hk hin' (by simpa using hir) hcov
+      exact this
 
 end Yak.Tree
